@@ -74,6 +74,13 @@ def run(tier, work):
         text = "r = %s\nr.\n" % lit
         jobs.append({"files": {"t.rb": text}, "args": ["t.rb", "--suggest", "--row=2"]})
         meta.append(("configured-instance:" + cls, must, forbidden, object_names, frozenset()))
+        # the same receiver reached otherwise: through a constant, as a block parameter, as a literal, as a method's result
+        forms = {"constant": ("VFK = %s\nVFK.\n" % lit, 2), "block-parameter": ("[%s].each do |vfv|\n  vfv.\nend\n" % lit, 2),
+                 "literal": ("%s.\n" % lit, 1), "method-result": ("def vfm\n  %s\nend\nvfm.\n" % lit, 4),
+                 "instance-variable": ("@vfi = %s\n@vfi.\n" % lit, 2)}
+        for form, (ftext, row) in forms.items():
+            jobs.append({"files": {"t.rb": ftext}, "args": ["t.rb", "--suggest", "--row=%d" % row]})
+            meta.append(("configured-instance:%s/%s" % (cls, form), must, forbidden, object_names, frozenset()))
     # (b) TLC-generated user hierarchies
     graphs = rng.sample(K.emit(work, stats), 150 if tier == "quick" else 3000)
     user_names = {"foo", "bar", "baz", "mix"}
@@ -159,6 +166,7 @@ def judge(kind, must, forbidden, also, out, attrs=frozenset()):
             src = "attribute-accessor"
         if src == "object-or-kernel":
             group = group.replace("-placed", "")      # one deviation, whatever the namespace
+            kind = kind.split("/")[0]                 # ... and however the receiver is reached
         bad.append(("%s:missing:%s" % (kind if group.startswith("configured") else group, src),
                     "not suggested: %s" % missing[:8]))
     extra = sorted(names & forbidden)
